@@ -1550,6 +1550,7 @@ func (g *Gtp5g) queryMultiURR(lSeidUrridsMap map[uint64][]uint32, ps bool) (map[
 	//       depending on the size of report
 	queryNum := 0
 	queryNumOnce := gtp5gnl.MaxNetlinkUsageReportNum()
+query:
 	for seid, urrIds := range lSeidUrridsMap {
 		for _, urrId := range urrIds {
 			oids = append(oids, gtp5gnl.OID{seid, uint64(urrId)})
@@ -1558,7 +1559,14 @@ func (g *Gtp5g) queryMultiURR(lSeidUrridsMap map[uint64][]uint32, ps bool) (map[
 			if queryNum >= queryNumOnce {
 				rs, err := gtp5gnl.GetMultiReportsOID(c, g.link.link, oids)
 				if err != nil {
-					return nil, errors.Wrapf(err, "queryMultiURR[%+v]", lSeidUrridsMap)
+					if len(reports) == 0 {
+						return nil, errors.Wrapf(err, "queryMultiURR[%+v]", lSeidUrridsMap)
+					}
+					// the usage read by the earlier requests has been reset in gtp5g:
+					// it must be reported, not dropped with this request
+					g.log.Warnf("queryMultiURR[%+v]: %v", lSeidUrridsMap, err)
+					oids = oids[:0]
+					break query
 				}
 
 				g.log.Tracef("Reports number in one netlink request: %+v", len(rs))
@@ -1572,7 +1580,10 @@ func (g *Gtp5g) queryMultiURR(lSeidUrridsMap map[uint64][]uint32, ps bool) (map[
 	if len(oids) > 0 {
 		rs, err := gtp5gnl.GetMultiReportsOID(c, g.link.link, oids)
 		if err != nil {
-			return nil, errors.Wrapf(err, "queryMultiURR[%+v]", lSeidUrridsMap)
+			if len(reports) == 0 {
+				return nil, errors.Wrapf(err, "queryMultiURR[%+v]", lSeidUrridsMap)
+			}
+			g.log.Warnf("queryMultiURR[%+v]: %v", lSeidUrridsMap, err)
 		}
 
 		g.log.Tracef("Reports number in one netlink request: %+v", len(rs))
